@@ -559,13 +559,19 @@ def _fit_two_branch(path, p, l, b, model, meta, branch, **fitkw):
     if path == "frame_guess":
         return pygaps.ModelIsotherm(isotherm_data=_both_branch_frame(p, l, b, False), pressure_key="pp", loading_key="ll",
                                     model=model, branch=branch, **fitkw, **meta)
+    if path in ("frame_guess_sliced", "frame_sliced"):
+        # the table is what is left of a longer one after cutting off its first rows (labels 3..n+2, not 0..n-1)
+        df = _both_branch_frame(p, l, b, path == "frame_sliced")
+        df.index = range(3, len(df) + 3)
+        return pygaps.ModelIsotherm(isotherm_data=df, pressure_key="pp", loading_key="ll", model=model, branch=branch,
+                                    **fitkw, **meta)
     iso = pygaps.PointIsotherm(pressure=p.tolist(), loading=l.tolist(), branch=[bool(x) for x in b], **meta)
     if path == "point":
         return pygaps.ModelIsotherm.from_pointisotherm(iso, branch=branch, model=model, **fitkw)
     return pgm.model_iso(iso, branch=branch, model=model, **fitkw)
 
 
-TWO_PATHS = ("frame", "frame_guess", "point", "model_iso")
+TWO_PATHS = ("frame", "frame_guess", "point", "model_iso", "frame_guess_sliced", "frame_sliced")
 
 
 # =====================================================================================================================
